@@ -114,6 +114,8 @@ impl Grapheme {
     }
 
     pub(crate) fn escape_non_ascii_chars(&mut self, use_surrogate_pairs: bool) {
+        #[cfg(grex_verif)]
+        crate::verif::point("grapheme.escape_non_ascii");
         self.chars = self
             .chars
             .iter()
@@ -130,6 +132,8 @@ impl Grapheme {
         is_non_ascii_char_escaped: bool,
         is_astral_code_point_converted_to_surrogate: bool,
     ) {
+        #[cfg(grex_verif)]
+        crate::verif::point("grapheme.escape_regexp_symbols");
         let characters = self.chars_mut();
 
         #[allow(clippy::needless_range_loop)]
